@@ -110,25 +110,27 @@ def run(ctx):
 
 def r1(ctx, new):
     rep = ctx.rep
-    chains = [(bb, t) for bb, t in ctx.calls(new) if callee_name(t).endswith('GeneratorsChain::<P>::new')]
+    # chain constructions in the constructor and in the private helpers it delegates to (arguments in the constructor's vocabulary)
+    chains = [(fr, bb, t, a) for (fr, bb, t, a) in ctx.flat_calls(new, lambda n, t: n.endswith('GeneratorsChain::<P>::new'))]
     rep.floor('R-C11-1', 'chain constructions', len(chains), 2)
     ix = ctx.eng.bx(new)
     rt = ctx.eng.return_term(new)
     agg = [x for x in walk(rt) if x.tag == 'adt' and x[1].endswith('BulletproofGens::BulletproofGens')]
     fields = dict(agg[0][2]) if agg else {}
     tags = {}
-    for bb, t in chains:
-        lab = ctx.args(new, bb)[0]
-        where = ctx.where(new, bb)
+    frames = ctx.frames(new)
+    for n, (fr, bb, t, cargs) in enumerate(chains):
+        lab = cargs[0]
+        where = ctx.where(fr.body, bb)
         base = strip(lab)
         evs = lab[2] if lab.tag == 'mut' else ()
-        n = chains.index((bb, t))
-        # which vector receives this chain?  the extend event whose value contains this call
+        full_site = fr.site + ((fr.body.key, bb),)
+        # which vector receives this chain?  the extend event whose (helper-expanded) value contains this call
         target = None
         for e in ix.events():
             if e['decl'] == 'std::iter::Extend::extend':
                 et = ctx.eng.event_term(new, e)
-                if any(x.tag == 'call' and x[3] and x[3][-1] == (new.key, bb) for x in walk(et)):
+                if any(x.tag == 'call' and x[3] and tuple(x[3]) == tuple(full_site) for x in walk(ctx.eng.expand(et, stop={callee_name(t)}))):
                     # which of the stored vectors does the extended element belong to?
                     if e['mutarg'] != 0:
                         continue
@@ -159,7 +161,7 @@ def r1(ctx, new):
         if wr:
             val = wr[0][3][-1]
             if wr[0][2].endswith('write_u32'):
-                le = any('LittleEndian' in callee_name(t2) for _, t2 in ctx.calls(new) if callee_decl(t2).endswith('write_u32'))
+                le = any('LittleEndian' in callee_name(t2) for f2 in frames for _, t2 in f2.calls() if callee_decl(t2).endswith('write_u32'))
             else:
                 le = any(x.tag == 'call' and x[1].endswith('<impl u32>::to_le_bytes') for x in walk(val))
             conv = [x for x in walk(val) if x.tag == 'call' and x[1].endswith('try_from')]
@@ -167,7 +169,7 @@ def r1(ctx, new):
             idx_ok = bool(conv) and bool(idxs) and not ctx.adapters(val)
             det = short(val, 100)
         # the bytes written are label[1..5]
-        rng_ok = any(callee_decl(t2).endswith('index_mut') and canon(ctx.args(new, b2)[1]) in ('range(1,5)', 'range(1,None)') for b2, t2 in ctx.calls(new))
+        rng_ok = any(callee_decl(t2).endswith('index_mut') and canon(f2.args(b2)[1]) in ('range(1,5)', 'range(1,None)') for f2 in frames for b2, t2 in f2.calls())
         rep.check(ok_shape and len(wr) == 1 and le and idx_ok and rng_ok, 'R-C11-1', 'R-C11-1/chain%d/label' % n,
                   'label %d is [tag, LE32(party index)] with the party index = checked u32 of the loop index (%s)' % (n, det),
                   'label %d: 5-byte array=%s, one little-endian 4-byte write=%s/%s, into bytes 1..5=%s, index is the loop index=%s (%s)' % (n, ok_shape, len(wr), le, rng_ok, idx_ok, det), where)
@@ -179,19 +181,40 @@ def r1(ctx, new):
     rep.check(ok, 'R-C11-1', 'R-C11-1/all-parties', 'the derivation loop enumerates every party vector', 'the party loop is %s' % (short(lps[0].iter_term, 100) if lps else None), ctx.where(new))
 
 
+def hasher_inputs(t):
+    """(constructor term, [absorbed data terms in order]) of a hasher value, for the imperative (`h.update(x)`), the builder
+    (`H::default().chain(x)`, normalised by the engine) and the one-shot (`H::digest(x)`) styles; None if not recognised"""
+    t0 = t
+    while t0.tag == 'call' and t0[1].split('::')[-1] in ('into', 'from', 'finalize', 'finalize_xof', 'finalize_fixed') and t0[2]:
+        t0 = t0[2][0]
+    if t0.tag == 'call' and t0[1].split('::')[-1] == 'digest' and len(t0[2]) == 1:
+        return t0, [t0[2][0]]
+    if t0.tag == 'mut':
+        ins = []
+        for e in t0[2]:
+            if e.tag == 'ev' and e[1] == 'call' and e[2].split('::')[-1] in ('update', 'chain', 'chain_update') and e[3]:
+                ins.append(e[3][-1])
+            elif e.tag == 'ev':
+                return None
+        return strip(t0), ins
+    return None
+
+
 def r2(ctx):
     rep = ctx.rep
     cn = ctx.fn('GeneratorsChain::<P>::new', 'R-C11-2')
     if cn is not None:
-        ups = [(bb, ctx.args(cn, bb)) for bb, t in ctx.calls(cn) if callee_decl(t) == 'digest::Update::update']
+        rt = ctx.eng.return_term(cn)
+        agg = [x for x in walk(rt) if x.tag == 'adt' and x[1].endswith('GeneratorsChain::GeneratorsChain')]
+        reader = dict(agg[0][2]).get('reader') if agg else None
+        hi = hasher_inputs(reader) if reader is not None else None
         shake = any('Shake256' in l['ty'] for l in cn.locals)
-        seq = [canon(strip(a[1])) for _, a in ups]
-        rep.check(shake and seq == ["b'GeneratorsChain'", 'p1'] and any(callee_decl(t).endswith('finalize_xof') for _, t in ctx.calls(cn)), 'R-C11-2', 'R-C11-2/chain-new',
-                  'the chain absorbs b"GeneratorsChain" then the label into SHAKE256 and switches to XOF output', 'chain construction absorbs %s (SHAKE256: %s)' % (seq, shake), ctx.where(cn))
-        if ups:
-            # second update sees the first
-            second = ups[1][1][0] if len(ups) > 1 else None
-            rep.check(second is not None and second.tag == 'mut', 'R-C11-2', 'R-C11-2/same-hasher', 'both updates act on the same hasher', 'the label is absorbed into a different hasher', ctx.where(cn))
+        xof = reader is not None and reader.tag == 'call' and reader[1].endswith('finalize_xof')
+        seq = [canon(ctx.eng.expand(strip(a))) for a in hi[1]] if hi else None
+        rep.check(shake and xof and seq == ["b'GeneratorsChain'", 'p1'], 'R-C11-2', 'R-C11-2/chain-new',
+                  'the chain absorbs b"GeneratorsChain" then the label into SHAKE256 and switches to XOF output', 'chain construction absorbs %s (SHAKE256: %s, XOF: %s)' % (seq, shake, xof), ctx.where(cn))
+        rep.check(hi is not None and hi[0].tag == 'call' and not hi[0][2], 'R-C11-2', 'R-C11-2/same-hasher', 'both absorptions act on one freshly constructed hasher',
+                  'the hasher the reader is taken from is %s' % (short(hi[0], 80) if hi else None), ctx.where(cn))
     nx = [b for b in ctx.facts.fns() if b.path.endswith('GeneratorsChain<P> as std::iter::Iterator>::next')]
     if not nx:
         rep.anchor_missing('R-C11-2', 'R-C11-2/next', 'GeneratorsChain::next not found')
@@ -237,6 +260,68 @@ def r3(ctx, new):
         rep.check(f is not None and strip(f).tag == 'param', 'R-C11-3', 'R-C11-3/field/%s' % nm, 'field %s stores the constructor argument' % nm, 'field %s is %s' % (nm, short(f, 60) if f is not None else None), ctx.where(new))
 
 
+def fmt_template_pieces(tpl, args):
+    """pieces of a `format_args!` template in the compiler's byte encoding: `<len> <literal bytes>` runs, 0xC0.. argument
+    placeholders (taken in order), 0x00 terminator; None when the bytes do not parse that way"""
+    out, i, k = [], 0, 0
+    while i < len(tpl):
+        b = tpl[i]
+        if b == 0 and i == len(tpl) - 1:
+            return out
+        if b < 0x80 and b > 0:
+            lit = tpl[i + 1:i + 1 + b]
+            if len(lit) != b:
+                return None
+            out.append(lit)
+            i += 1 + b
+        elif b == 0xc0:
+            if k >= len(args):
+                return None
+            out.append(args[k])
+            k += 1
+            i += 1
+        else:
+            return None
+    return out if tpl and tpl[-1] != 0 else None
+
+
+def string_pieces(t):
+    """a byte/str value as a concatenation: [bytes | ('dec', term)] ; None when the construction is not recognised.
+    `"lit".to_owned() + &i.to_string()`, `format!("lit{}", i)` and `[a, b].concat()` give the same pieces."""
+    t = strip(t)
+    if t.tag == 'const' and isinstance(t[1], (bytes, str)):
+        return [t[1] if isinstance(t[1], bytes) else t[1].encode()]
+    if t.tag == 'binop' and t[1] == 'Add':
+        a, b = string_pieces(t[2]), string_pieces(t[3])
+        return a + b if a is not None and b is not None else None
+    if t.tag in ('index', 'param', 'cast', 'elem', 'field'):
+        # an integer rendered into the string (the conversion call is transparent in value terms; its presence is checked separately)
+        return [('dec', t)]
+    if t.tag == 'call':
+        nm = t[1].split('::')[-1]
+        if nm in ('to_owned', 'as_bytes', 'as_str', 'deref', 'as_ref', 'borrow', 'into', 'from', 'clone', 'to_vec', 'into_bytes', 'must_use') and len(t[2]) == 1:
+            return string_pieces(t[2][0])
+        if nm == 'to_string' and len(t[2]) == 1:
+            inner = string_pieces(t[2][0])
+            return inner if inner is not None else [('dec', t[2][0])]
+        if nm == 'format' and len(t[2]) == 1:
+            a = strip(t[2][0])
+            # fmt::Arguments::new(template, &[Argument::new_display(x), ..])
+            if a.tag == 'call' and len(a[2]) == 2 and strip(a[2][0]).tag == 'const' and isinstance(strip(a[2][0])[1], bytes) and strip(a[2][1]).tag == 'array':
+                fargs = []
+                for x in strip(a[2][1]).args:
+                    x = strip(x)
+                    if not (x.tag == 'call' and x[1].split('::')[-1] == 'new_display' and len(x[2]) == 1):
+                        return None
+                    fargs.append(('dec', x[2][0]))
+                return fmt_template_pieces(strip(a[2][0])[1], fargs)
+    return None
+
+
+def canon_pieces(ps):
+    return [p if isinstance(p, bytes) else ('dec', canon(p[1])) for p in ps] if ps is not None else None
+
+
 def r4(ctx):
     rep = ctx.rep
     facts = ctx.facts
@@ -269,12 +354,25 @@ def r4(ctx):
             val = t[3][0]
             c = canon(val)
             det = c
-            ok = c == "hash_from_bytes_sha3_512((b'RISTRETTO_MASKING_BASEPOINT_' Add idx(range(1,None))))"
-            # stored through the zipped iter_mut element, decimal via to_string
+            # the hashed label, whichever way the string is put together
+            hcall = strip(val)
+            label = None
+            if hcall.tag == 'call' and hcall[1].endswith('hash_from_bytes_sha3_512') and len(hcall[2]) == 1:
+                label = hcall[2][0]
+            elif hcall.tag == 'call' and hcall[1].endswith('from_uniform_bytes') and len(hcall[2]) == 1:
+                # the hash-to-group helper inlined: from_uniform_bytes(SHA3-512(label)) (the primitive itself is judged by R-C11-4/hash-to-group)
+                hi0 = hasher_inputs(strip(hcall[2][0]))
+                if hi0 is not None and len(hi0[1]) == 1 and hf is not None and any(callee_name(t2) == hf.path for _, t2 in ctx.calls(mb)):
+                    label = hi0[1][0]
+            pieces = canon_pieces(string_pieces(label)) if label is not None else None
+            # the integer is rendered in decimal: through Display (to_string / format!("{}"))
+            dec = any(callee_decl(t2) == 'std::string::ToString::to_string' or callee_decl(t2).endswith('::new_display') for _, t2 in ctx.calls(mb))
+            ok = dec and pieces == [b'RISTRETTO_MASKING_BASEPOINT_', ('dec', 'idx(range(1,None))')]
+            det = '%s with label pieces %s' % (c[:120], pieces)
+            # stored through the zipped iter_mut element
             lp = list(ctx.loops(mb).values())
             zipped = bool(lp) and lp[0].iter_term is not None and canon(lp[0].iter_term).startswith('zip(range(1,None),') and not ctx.adapters(lp[0].iter_term)
-            dec = any(callee_decl(t2) == 'std::string::ToString::to_string' for _, t2 in ctx.calls(mb))
-            ok = ok and zipped and dec
+            ok = ok and zipped
         rep.check(ok, 'R-C11-4', 'R-C11-4/blinding-generators', 'generator i = hash_from_bytes_sha3_512("RISTRETTO_MASKING_BASEPOINT_" ++ decimal(i)), i = 1.. zipped with the array slots',
                   'blinding generators are derived as %s' % det, ctx.where(mb))
         st2 = [e for e in ctx.eng.bx(cb).events() if e['kind'] == 'store']
@@ -291,14 +389,26 @@ def r4(ctx):
             if idxl:
                 it = ctx.eng.local(cb, st2[0]['bb'], st2[0]['idx'], idxl[0])
                 same_index = it.tag == 'index' and any(x.tag == 'elem' and x[1] is it[1] for x in walk(val))
+            else:
+                # `for (slot, point) in arr.iter_mut().zip(points)`: the slot written is the zip partner of the point compressed
+                lp2 = [l for l in ctx.loops(cb).values() if st2[0]['bb'] in l.blocks and l.iter_term is not None]
+                z = strip(lp2[-1].iter_term) if lp2 else None
+                if z is not None and z.tag == 'zip' and not ctx.adapters(z) and any(pe['k'] == 'deref' for pe in place['p']):
+                    srcs = [x[1] for x in walk(val) if x.tag == 'elem']
+                    parts = [strip(z[1]), strip(z[2])]
+                    tgt_roots = st2[0]['roots']
+                    point_side = [p_ for p_ in parts if any(strip(s_) is p_ for s_ in srcs)]
+                    slot_side = [p_ for p_ in parts if p_ not in point_side]
+                    same_index = len(point_side) == 1 and len(slot_side) == 1 and bool(tgt_roots) and lp2[-1].driver_only_exit
             ok2 = det2.startswith('compress(each(get_or_init(') and same_index and any(callee_name(t2) == mb_owner.path for _, t2 in ctx.calls(cb))
         rep.check(ok2, 'R-C11-4', 'R-C11-4/compressed-generators', 'compressed[i] = compress(generator[i]) for the same enumerate index over the uncompressed array',
                   'compressed generators are %s' % det2, ctx.where(cb))
     if hf is not None:
-        sha = any('Sha3_512' in l['ty'] for l in hf.locals)
-        ups = [canon(strip(ctx.args(hf, bb)[1])) for bb, t in ctx.calls(hf) if callee_decl(t) == 'digest::Digest::update']
+        sha = any('Sha3_512' in l['ty'] for l in hf.locals) or any('Sha3_512' in callee_name(t) or 'Sha3_512' in ' '.join(t['func'].get('gargs', [])) for _, t in ctx.calls(hf))
         fu = [ctx.args(hf, bb)[0] for bb, t in ctx.calls(hf) if callee_decl(t).endswith('from_uniform_bytes')]
-        ok = sha and ups == ['p1'] and len(fu) == 1 and any(x.tag == 'call' and x[1].endswith('finalize') for x in walk(fu[0]))
+        hi = hasher_inputs(strip(fu[0])) if len(fu) == 1 else None
+        ups = [canon(strip(x)) for x in hi[1]] if hi else []
+        ok = sha and ups == ['p1'] and len(fu) == 1 and hi is not None
         rep.check(ok, 'R-C11-4', 'R-C11-4/hash-to-group', 'hash_from_bytes_sha3_512 = from_uniform_bytes(SHA3-512(input))', 'hash-to-group is SHA3-512=%s over %s' % (sha, ups), ctx.where(hf))
     if pg is not None:
         rt = ctx.eng.return_term(pg)
